@@ -5,6 +5,7 @@
 # (C) together with sibling files of the same package and another package.  The generated text of p/gen.go must be
 # byte-identical in A, B and C, and the helper identifiers declared in it must be pairwise distinct.
 # (D) over the outputs of a run whose neighbour file had another type, (E) with files left in <dst>_tmp by an interrupted run.
+# (F) with test packages loaded: an in-package test file alone and next to a non-test generator file of the same package.
 # Prints DETERMINISM-OK or DETERMINISM-FAIL: <what>.
 export GOFLAGS=-mod=mod GOPROXY=off GOSUMDB=off GOTOOLCHAIN=local
 repo=$(realpath "$1")
@@ -26,6 +27,7 @@ import (
 	"os"
 
 	"github.com/goghcrow/go-co/rewriter"
+	"github.com/goghcrow/go-loader"
 )
 
 func main() {
@@ -35,7 +37,11 @@ func main() {
 			os.Exit(3)
 		}
 	}()
-	rewriter.Compile(os.Args[1], os.Args[2])
+	var opts []loader.Option
+	if len(os.Args) > 3 && os.Args[3] == "with-tests" {
+		opts = append(opts, loader.WithLoadTest()) // what cogen / go:generate mode does
+	}
+	rewriter.Compile(os.Args[1], os.Args[2], opts...)
 }
 GO
 cat > "$d/zzd/a/src/p/gen.go" <<'GO'
@@ -98,7 +104,7 @@ cp "$d/zzd/a/src/p/gen.go" "$d/zzd/c/src/p/gen.go"
   for i in $(seq 1 15); do echo "func Q$i(m map[int]int) Iter[int] { for k, v := range m { Yield(k*v + $i) }; return nil }"; done; } > "$d/zzd/c/src/q/q.go"
 cd "$d"
 go build -o "$d/zzd/cotool" ./zzd/tool 2>"$d/build.err" || { echo "DETERMINISM-FAIL: compiler does not build: $(head -3 "$d/build.err" | tr '\n' ' ')"; exit 1; }
-run() { out=$("$d/zzd/cotool" "$1" "$2" 2>"$d/run.err"); st=$?; if [ $st -ne 0 ]; then echo "DETERMINISM-FAIL: compiler failed on $1: $(echo "$out" | grep COMPILER-PANIC | cut -c1-300) $(grep -v "^\[" "$d/run.err" | head -5 | tr "\n" " " | cut -c1-400)"; exit 1; fi; }
+run() { out=$("$d/zzd/cotool" "$1" "$2" $3 2>"$d/run.err"); st=$?; if [ $st -ne 0 ]; then echo "DETERMINISM-FAIL: compiler failed on $1: $(echo "$out" | grep COMPILER-PANIC | cut -c1-300) $(grep -v "^\[" "$d/run.err" | head -5 | tr "\n" " " | cut -c1-400)"; exit 1; fi; }
 run "$d/zzd/a/src" "$d/zzd/a/out";  cp "$d/zzd/a/out/p/gen.go" "$d/A.txt" || { echo "DETERMINISM-FAIL: no output for p/gen.go"; exit 1; }
 run "$d/zzd/a/src" "$d/zzd/a/out";  cp "$d/zzd/a/out/p/gen.go" "$d/B.txt"
 run "$d/zzd/c/src" "$d/zzd/c/out";  cp "$d/zzd/c/out/p/gen.go" "$d/C.txt"
@@ -139,4 +145,42 @@ printf 'package p\n\nimport "github.com/goghcrow/go-co/seq"\n\nvar Stale seq.Ite
 run "$d/zzd/a/src" "$d/zzd/a/out2"
 if [ -e "$d/zzd/a/out2/p/stale.go" ]; then echo "DETERMINISM-FAIL: a file left in <dst>_tmp by an earlier (interrupted) run was emitted into the output: p/stale.go"; exit 1; fi
 if ! cmp -s "$d/A.txt" "$d/zzd/a/out2/p/gen.go"; then echo "DETERMINISM-FAIL: p/gen.go differs when <dst>_tmp holds files of an earlier run"; exit 1; fi
-echo "DETERMINISM-OK: p/gen.go byte-identical alone, re-run over earlier outputs, among sibling files + another package, over outputs of a run with another neighbour, and with leftovers in <dst>_tmp; $n helper identifiers pairwise distinct"
+# (F) test packages loaded (as cogen does): an in-package test file with a generator, alone and next to an unrelated non-test generator
+#     file of the same package (the loader then returns the package twice, p and p [p.test], under one import path)
+mkdir -p "$d/zzd/f1/src/p" "$d/zzd/f2/src/p"
+cat > "$d/zzd/f1/src/p/gen_test.go" <<'GO'
+package p
+
+import (
+	"testing"
+
+	. "github.com/goghcrow/go-co"
+)
+
+func countTo(n int) (_ Iter[int]) {
+	for i := 0; i < n; i++ {
+		Yield(i)
+	}
+	for _, x := range []int{40, 2} {
+		Yield(x)
+	}
+	return
+}
+
+func TestCount(t *testing.T) {
+	sum := 0
+	for v := range countTo(3) {
+		sum += v
+	}
+	if sum != 45 {
+		t.Fatal(sum)
+	}
+}
+GO
+cp "$d/zzd/f1/src/p/gen_test.go" "$d/zzd/f2/src/p/gen_test.go"
+printf 'package p\n\nimport . "github.com/goghcrow/go-co"\n\nfunc Ones() (_ Iter[int]) {\n\tfor {\n\t\tYield(1)\n\t}\n}\n' > "$d/zzd/f2/src/p/lib.go"
+run "$d/zzd/f1/src" "$d/zzd/f1/out" with-tests; cp "$d/zzd/f1/out/p/gen_test.go" "$d/F1.txt" 2>/dev/null || { echo "DETERMINISM-FAIL: no output for p/gen_test.go with test packages loaded"; exit 1; }
+run "$d/zzd/f2/src" "$d/zzd/f2/out" with-tests; cp "$d/zzd/f2/out/p/gen_test.go" "$d/F2.txt" 2>/dev/null || { echo "DETERMINISM-FAIL: no output for p/gen_test.go next to lib.go with test packages loaded"; exit 1; }
+grep -q 'Start\[int\]' "$d/F1.txt" || { echo "DETERMINISM-FAIL: p/gen_test.go was not compiled (harness lost its subject)"; exit 1; }
+if ! cmp -s "$d/F1.txt" "$d/F2.txt"; then echo "DETERMINISM-FAIL: p/gen_test.go (in-package test, test packages loaded) differs when an unrelated non-test generator file sits in the same package: $(diff "$d/F1.txt" "$d/F2.txt" | grep '^[<>]' | head -4 | tr '\n' ' ' | cut -c1-300)"; exit 1; fi
+echo "DETERMINISM-OK: p/gen.go byte-identical alone, re-run over earlier outputs, among sibling files + another package, over outputs of a run with another neighbour, and with leftovers in <dst>_tmp; p/gen_test.go byte-identical alone and next to a non-test generator file with test packages loaded; $n helper identifiers pairwise distinct"
